@@ -58,8 +58,9 @@ SPEC = {
         "maps have fewer than 2^32 darts (no u32 wrap-around is modelled)",
         "theorems are stated for non-null existing darts (d != 0, d < n_darts) of maps satisfying WF 3 resp. WF 4 (Model/WF.lean); null "
         "and out-of-range darts are correspondence-only",
-        "3-D face ids: claimed under FaceScope (Mirror; along b1 a dart is 3-free iff its successor is; a 3-linked dart is not 1-free) = "
-        "'glued faces are closed and mirrored'; faces that are not 3-linked may be open. Vertex, edge, volume ids and all orbits: every WF 4 map",
+        "3-D face ids: proved under FaceScope (Mirror; along b1 a dart is 3-free iff its successor is) which contains 'glued faces are "
+        "closed and mirrored'; glued faces may even be open, faces that are not 3-linked are unrestricted. Vertex, edge, volume ids and "
+        "all orbits: every WF 4 map",
         "the correspondence is exhaustive only up to the dart bound stated in coverage.rule; above it sampled",
         "`i_cell::<I>` is not driven separately: it is `orbit` with the Vertex/Edge/Face policy (one-line wrapper, read)",
         "the model's id functions take the minimum of the collected orbit while the Rust code accumulates the minimum along the "
@@ -80,10 +81,9 @@ SPEC = {
             "restricted as the property says (see not_proved), plus on every map: iter_* = in-use darts that are their own id. "
             "distinct_nontrivial = distinct implementation output transcripts.",
     "not_proved": [
-        "3-D face ids outside `FaceScope` (Props/C03b.lean: Mirror + every face 3-linked as a whole + 3-linked darts not 1-free), in "
-        "particular wholly 3-linked, mirrored but OPEN glued faces: outside the property's stated scope, no theorem; correspondence "
-        "only (an exhaustive run over all WF 3-maps with n<=4 found no wrong face_id on them; dropping Mirror or wholeness does give "
-        "wrong ids, see the comment in C03b.lean)",
+        "3-D face ids outside `FaceScope` (Props/C03b.lean: Mirror + every face 3-linked as a whole): no claim — dropping either condition "
+        "gives wrong ids on the real code (4-dart counterexamples in the comment of C03b.lean). FaceScope CONTAINS the property's scope "
+        "(glued faces closed and mirrored): open mirrored glued faces and all faces that are not 3-linked are proved too",
         "3-D linear policies: proved equal to the full cell when every one-directional generator is defined on all darts of the cell "
         "or on none (`LinClosed`, the oracle's `linear_closed3`); the oracle additionally restricts `vl` to maps whose glued faces are "
         "closed and mirrored, the theorem does not need that",
@@ -765,11 +765,56 @@ def streams3d(tier, rng):
     ]
 
 
+def tx_queries(count, rng):
+    """the transactional variants INSIDE a transaction that has already edited the map: a few links/unlinks (2-D and 3-D) followed by
+    id / orbit queries in the same `tx` block; a transactional query must see the images written earlier in its own transaction
+    (the model reads through the log).  Correspondence only, plus: the same queries after the commit give the same answers."""
+    cases = []
+    for c in range(count):
+        dim = rng.choice([2, 3, 3])
+        n = rng.randint(3, 7)
+        init = [f"new {dim} {n} 0"]
+        darts = list(range(1, n + 1))
+        for _ in range(rng.choice([0, 1, 2, 3])):
+            x, y = rng.sample(darts, 2)
+            init.append(f"flink {rng.randint(1, dim)} {x} {y}")
+        edits, queries = [], []
+        for _ in range(rng.randint(1, 3)):
+            x, y = rng.sample(darts, 2)
+            i = rng.randint(1, dim)
+            edits.append(rng.choice([f"link {i} {x} {y}", f"link {i} {x} {y}", f"unlink {i} {x}"]))
+        pols = ["v", "e", "f", "vl", "fl"] + (["vol", "c3", "c23"] if dim == 3 else ["c12"])
+        for _ in range(rng.randint(2, 5)):
+            d = rng.choice(darts)
+            queries.append(rng.choice([f"vid {d}", f"eid {d}", f"fid {d}", f"orbit {rng.choice(pols)} {d}"]
+                                      + ([f"volid {d}"] if dim == 3 else [])))
+        lines = init + ["tx"] + edits + queries + ["endtx"] + queries
+        cases.append(Case(f"txq{c}", lines, oracle="txq", meta={"sig": "tx-queries", "k": len(edits) + len(queries), "nq": len(queries)}))
+    return cases
+
+
+def oracle_txq(case, li):
+    """when the block commits, the answers inside the block equal the answers to the same queries after the commit"""
+    if any(x.startswith("<missing") for x in li):
+        return "driver died"
+    nq = case.meta["nq"]
+    tx = [x for x in li if x.startswith("tx ")]
+    if not tx or not tx[0].startswith("tx ok"):
+        return None
+    inside = [x.strip() for x in tx[0][len("tx ok"):].split(" ; ")][-nq:]
+    after = [x[3:].strip() if x.startswith("ok ") else x for x in li[-nq:]]
+    if inside != after:
+        return f"queries inside the committed block answered {inside} but the same queries after the commit answer {after}"
+    return None
+
+
 def run(tier, seed):
     rng = random.Random(seed)
     for k in COUNT:
         COUNT[k] = 0
     parts = []
+    parts.append(("transactional queries after edits in the same transaction (2-D and 3-D)",
+                  hv.campaign(tx_queries(4000 if tier == "quick" else 60000, rng), oracle_txq)))
     if tier == "quick":
         r1 = hv.campaign(exhaustive([1, 2, 3, 4], rng), oracle_c03)
         r1["stats"]["exhaustive"] = True
